@@ -15,7 +15,7 @@ class Config:
     """One cluster configuration = constants of Cluster.tla + options of the real instances."""
 
     def __init__(self, n=2, core=(), sync=('STRICT',), auto_fence=False, fail='CONTINUE', t=2, sync_ticks=3,
-                 crash=0, restart=0, cut=0, user=0, slow=(), fix_f1=False, fix_f5=True, hold=False, rounds=6, k=8, name=None):
+                 crash=0, restart=0, cut=0, user=0, slow=(), fix_f1=True, fix_f5=True, hold=False, rounds=6, k=8, name=None):
         self.n, self.core, self.sync = n, tuple(core), tuple(sync)
         self.auto_fence, self.fail, self.t, self.sync_ticks = auto_fence, fail, t, sync_ticks
         self.crash, self.restart, self.cut, self.user = crash, restart, cut, user
